@@ -4,6 +4,7 @@
 -/
 import GwfProps.C02
 import GwfProps.C16
+import GwfProps.Lemmas.DrainLemmas
 namespace Gwf.C06
 open Gwf
 
@@ -92,5 +93,60 @@ theorem rerun_exact (w : Wf) (σ : Nat → Status) (hσ : IsStatusMap w σ) (ran
       | refl => exact fun h => h
       | step _ hd ih => exact fun h => ih ((submits_is_stale_closure w σ hσ hb _).2 (Or.inr ⟨_, hd, h⟩))
     exact hup s hreach ((submits_is_stale_closure w σ hσ hb s).2 (Or.inl hst))
+
+/-- **the drained files are up to date** (this discharges `hfiles` of `converges`): let the cluster
+    finish the jobs of the targets in `order` successfully, one after the other, in ANY order in which
+    every input of a target is an output of a target finished EARLIER or an existing file that none of
+    them produces and that is not dated after the start (the order every scheduler's prerequisite
+    semantics enforces: C07.no_early_start_afterok / _hold).  Then every drained target that declares outputs has
+    all outputs present and no input newer than any output: the file-based decision says "not stale" -/
+theorem drain_uptodate (w : World) (wf : List WT) (order : List Nat)
+    (htracked : ∀ t ∈ order, TrackedJob w wf t)
+    (hnodup : order.Nodup)
+    (hdisj : ∀ a ∈ order, ∀ b ∈ order, a ≠ b → ∀ q, q ∈ C16.outsF w.dir wf a → q ∉ C16.outsF w.dir wf b)
+    (hlegal : ∀ p r t, order = p ++ t :: r → ∀ i ∈ C16.insF w.dir wf t,
+        producedBy (C16.outsF w.dir wf) p i ∨
+        (¬ producedBy (C16.outsF w.dir wf) order i ∧ ∃ m, alook i w.files = some m ∧ m ≤ w.clock))
+    (t : Nat) (ht : t ∈ order) (hout : C16.outsF w.dir wf t ≠ []) :
+    let w' := order.foldl (fun w t => w.finishT wf t) w
+    shouldRun (fun p => alook p w'.files) false (C16.insF w.dir wf t) (C16.outsF w.dir wf t) = some false := by
+  intro w'
+  have hfiles : w'.files = stampSeq (C16.outsF w.dir wf) order w.clock w.files := (drain_files_eq wf order w htracked).1
+  obtain ⟨s, ho, hi⟩ := stampSeq_uptodate (C16.outsF w.dir wf) (C16.insF w.dir wf) w.clock w.files order hdisj hnodup
+    [] order w.clock w.files (by simp) (Nat.le_refl _) (by rintro q ⟨u, hu, _⟩; simp at hu) (fun q _ => rfl) hlegal t ht
+  have hin : ∀ i ∈ C16.insF w.dir wf t, ((fun p => alook p w'.files) i).isSome := by
+    intro i hi'
+    obtain ⟨m, hm, _⟩ := hi i hi'
+    simp only [hfiles, hm, Option.isSome_some]
+  rw [C01.shouldRun_false_iff _ false _ _ hin]
+  refine ⟨rfl, hout, ?_, ?_⟩
+  · intro o ho'
+    simp only [hfiles, ho o ho', Option.isSome_some]
+  · intro i hi' o ho' ti to hti hto
+    obtain ⟨m, hm, hms⟩ := hi i hi'
+    simp only [hfiles] at hti hto
+    rw [hm] at hti; rw [ho o ho'] at hto
+    simp only [Option.some.injEq] at hti hto
+    omega
+
+/-- draining changes no file that is not a declared output of a drained target and never the tracked
+    map: a target that was not submitted (it was complete) keeps exactly the files it was judged on -/
+theorem drain_frame (w : World) (wf : List WT) (order : List Nat)
+    (htracked : ∀ t ∈ order, TrackedJob w wf t) (q : String)
+    (hq : ¬ producedBy (C16.outsF w.dir wf) order q) :
+    let w' := order.foldl (fun w t => w.finishT wf t) w
+    alook q w'.files = alook q w.files ∧ w'.tracked = w.tracked := by
+  intro w'
+  obtain ⟨h1, h2⟩ := drain_files_eq wf order w htracked
+  exact ⟨by rw [h1]; exact stampSeq_untouched _ _ _ _ _ hq, h2⟩
+
+/-- non-vacuity: a two-target chain A → B, both submitted, drained in the legal order [A, B] -/
+example :
+    let wf : List WT := [⟨"A", 0, .leaf "src", .leaf "mid", .list [], "a"⟩, ⟨"B", 1, .leaf "mid", .leaf "out", .list [], "b"⟩]
+    let w : World := { dir := "/p", files := [("/p/src", 3)], tracked := [("A", "10"), ("B", "11")], hashes := [],
+                       jobs := [⟨"10", .pending, [], "A"⟩, ⟨"11", .pending, ["10"], "B"⟩], nextId := 12, clock := 5, hashing := false }
+    let w' := [0, 1].foldl (fun w t => w.finishT wf t) w
+    alook "/p/mid" w'.files = some 6 ∧ alook "/p/out" w'.files = some 7 ∧ alook "/p/src" w'.files = some 3 := by
+  decide
 
 end Gwf.C06
